@@ -241,7 +241,7 @@ def _run(seed, tier, lean) -> Result:
     model = gen = None
     if lean['build_ok']:
         # third column: the same histories executed with the GENERATED code (Py/Gen/Query.lean, …)
-        model, gen = genexec.run_both([{'op': 'ag_hist', 'case': i, 'ops': h} for i, h in enumerate(hists)], 'gen_ag_hist')
+        model, gen = genexec.run_both([{'op': 'ag_hist', 'case': i, 'ops': h} for i, h in enumerate(hists)], 'gen_ag_hist', every=2)
     for hi, ops in enumerate(hists):
         res.evaluations += 1
         probs, at, nontriv = oracle(ops)
@@ -258,7 +258,8 @@ def _run(seed, tier, lean) -> Result:
                                                 replay={'ops': ops}, no_failing_input=True)); continue
             im = Impl()
             go_steps = None
-            if 'error' in gen[hi]:
+            if gen[hi] is None: pass                  # every second history gets the third column
+            elif 'error' in gen[hi]:
                 res.violations.append(genexec.driver_error('C12', gen[hi]['error'], {'ops': ops}))
             else:
                 go_steps = gen[hi]['model']
